@@ -660,10 +660,295 @@ impl Prop for Sparse {
     }
 }
 
+// ---------------------------------------------------------------------------------------
+// Part `requests-in-flight` (after the seeded change `C13l`): handlers that take time. Services are added and removed
+// while earlier requests are still being served; "removed" has to hold for every request that arrives afterwards,
+// whatever is still in flight.
+
+#[repr(C)]
+#[derive(Serialize, Deserialize, Archive, Debug, Clone, PartialEq)]
+#[archive(check_bytes)]
+pub struct NapX(pub u32, pub u32);
+#[repr(C)]
+#[derive(Serialize, Deserialize, Archive, Debug, Clone, PartialEq)]
+#[archive(check_bytes)]
+pub struct NapY(pub u32, pub u32);
+
+pub struct Slow1;
+pub struct Slow2;
+
+impl RpcService for Slow1 {
+    fn register_handlers(r: &mut ServiceRegistry<Self>) {
+        r.add_handler::<NapX>();
+        r.add_handler::<NapY>();
+    }
+}
+impl RpcService for Slow2 {
+    fn register_handlers(r: &mut ServiceRegistry<Self>) {
+        r.add_handler::<NapX>();
+    }
+}
+
+macro_rules! slow_handler {
+    ($svc:ty, $msg:ty, $s:expr, $m:expr) => {
+        #[datacake_rpc::async_trait]
+        impl Handler<$msg> for $svc {
+            type Reply = Tag;
+            async fn on_message(&self, msg: Request<$msg>) -> Result<Tag, Status> {
+                let ms = msg.0.value();
+                // what the harness says is registered at the moment the handler starts
+                let registered_now = FLIGHT_REGISTERED.with(|r| r.borrow().contains(&$s));
+                FLIGHT_STARTS.with(|l| l.borrow_mut().push((msg.1.value(), registered_now)));
+                if ms > 0 {
+                    tokio::time::sleep(std::time::Duration::from_millis(ms as u64)).await;
+                }
+                Ok(Tag($s, $m, msg.1.value()))
+            }
+        }
+    };
+}
+thread_local! {
+    static FLIGHT_REGISTERED: std::cell::RefCell<BTreeSet<u8>> = const { std::cell::RefCell::new(BTreeSet::new()) };
+    static FLIGHT_STARTS: std::cell::RefCell<Vec<(u32, bool)>> = const { std::cell::RefCell::new(Vec::new()) };
+}
+slow_handler!(Slow1, NapX, 21, b'X');
+slow_handler!(Slow1, NapY, 21, b'Y');
+slow_handler!(Slow2, NapX, 22, b'X');
+
+#[derive(Debug, Clone)]
+pub enum FlightStep {
+    Add(u8),
+    Remove(u8),
+    /// start a request to pair p (0 = Slow1/X, 1 = Slow1/Y, 2 = Slow2/X) whose handler takes `ms`
+    Start(u8, u32),
+    Advance(u32),
+    Probe,
+}
+
+#[derive(Debug, Clone)]
+pub struct FlightCase {
+    pub steps: Vec<FlightStep>,
+}
+
+pub struct InFlight;
+
+async fn nap_request(addr: SocketAddr, pair: u8, ms: u32, n: u32) -> Result<Tag, Status> {
+    let channel = Channel::connect(addr);
+    match pair {
+        0 => RpcClient::<Slow1>::new(channel).send(&NapX(ms, n)).await.map(|v| Tag(v.0, v.1, v.2.value())),
+        1 => RpcClient::<Slow1>::new(channel).send(&NapY(ms, n)).await.map(|v| Tag(v.0, v.1, v.2.value())),
+        _ => RpcClient::<Slow2>::new(channel).send(&NapX(ms, n)).await.map(|v| Tag(v.0, v.1, v.2.value())),
+    }
+}
+
+fn pair_tags(pair: u8) -> (u8, u8) {
+    match pair {
+        0 => (21, b'X'),
+        1 => (21, b'Y'),
+        _ => (22, b'X'),
+    }
+}
+
+impl Prop for InFlight {
+    type Case = FlightCase;
+
+    fn id(&self) -> &'static str {
+        "C13"
+    }
+
+    fn part(&self) -> &'static str {
+        "requests-in-flight"
+    }
+
+    fn width(&self) -> usize {
+        3 * 24 + 2
+    }
+
+    fn gen(&self, src: &mut Src) -> FlightCase {
+        let n = 3 + src.below(20);
+        let mut steps = vec![];
+        for _ in 0..n {
+            steps.push(match src.weighted(&[3, 3, 5, 3, 4]) {
+                0 => FlightStep::Add(src.below(2) as u8),
+                1 => FlightStep::Remove(src.below(2) as u8),
+                2 => FlightStep::Start(src.below(3) as u8, *src.pick(&[0u32, 1, 5, 20, 100])),
+                3 => FlightStep::Advance(*src.pick(&[1u32, 4, 5, 19, 21, 100])),
+                _ => FlightStep::Probe,
+            });
+        }
+        FlightCase { steps }
+    }
+
+    fn run(&self, case: &FlightCase) -> Outcome {
+        use futures::stream::{FuturesUnordered, StreamExt};
+        e3::sim(1, 70_000_000, Default::default(), |_net| async move {
+            let addr: SocketAddr = ([10, 3, 0, 5], 7000).into();
+            let server = Server::listen(addr).await.expect("listen");
+            let mut registered: BTreeSet<u8> = BTreeSet::new();
+            // (pair, n, outcome)
+            type Done = (u8, u32, Result<Tag, Status>);
+            let mut flying: FuturesUnordered<std::pin::Pin<Box<dyn std::future::Future<Output = Done>>>> = FuturesUnordered::new();
+            let mut flying_to: Vec<(u32, u8)> = vec![];
+            let mut finished: Vec<Done> = vec![];
+            let mut probed_after_removal_in_flight = false;
+            let mut removed_in_flight: BTreeSet<u8> = BTreeSet::new();
+            // requests during whose life their service was unregistered at some moment (a refusal is then legitimate)
+            let mut saw_unregistered: BTreeSet<u32> = BTreeSet::new();
+            let mut n = 0u32;
+            FLIGHT_REGISTERED.with(|r| r.borrow_mut().clear());
+            FLIGHT_STARTS.with(|l| l.borrow_mut().clear());
+            let check_starts = || -> Result<(), crate::core::Fail> {
+                let bad = FLIGHT_STARTS.with(|l| l.borrow().iter().find(|(_, reg)| !*reg).copied());
+                ensure!(bad.is_none(), "served-while-unregistered", "the handler of request {} started while its service was not registered", bad.unwrap().0);
+                Ok(())
+            };
+            let check_done = |d: &Done, saw_unregistered: &BTreeSet<u32>| -> Result<(), crate::core::Fail> {
+                let (pair, n, out) = d;
+                let (svc, msg) = pair_tags(*pair);
+                match out {
+                    Ok(tag) => {
+                        ensure!(*tag == Tag(svc, msg, *n), "served-by-wrong-handler", "request {n} for {}/{} was answered by {:?}", svc, msg as char, tag);
+                    },
+                    Err(status) => {
+                        ensure!(
+                            saw_unregistered.contains(n),
+                            "refused-while-registered",
+                            "request {n} for {svc}/{} failed ({:?}) although its service was registered during its whole life",
+                            msg as char,
+                            status
+                        );
+                    },
+                }
+                Ok(())
+            };
+            for (i, step) in case.steps.iter().enumerate() {
+                match step {
+                    FlightStep::Add(s) => {
+                        if *s == 0 { server.add_service(Slow1) } else { server.add_service(Slow2) }
+                        registered.insert(21 + s);
+                        FLIGHT_REGISTERED.with(|r| r.borrow_mut().insert(21 + s));
+                        removed_in_flight.remove(&(21 + s));
+                    },
+                    FlightStep::Remove(s) => {
+                        if *s == 0 {
+                            server.remove_service(<Slow1 as RpcService>::service_name())
+                        } else {
+                            server.remove_service(<Slow2 as RpcService>::service_name())
+                        }
+                        FLIGHT_REGISTERED.with(|r| r.borrow_mut().remove(&(21 + s)));
+                        for (k, p) in &flying_to {
+                            if pair_tags(*p).0 == 21 + s {
+                                saw_unregistered.insert(*k);
+                            }
+                        }
+                        if registered.remove(&(21 + s)) && flying_to.iter().any(|(_, p)| pair_tags(*p).0 == 21 + s) {
+                            removed_in_flight.insert(21 + s);
+                        }
+                    },
+                    FlightStep::Start(pair, ms) => {
+                        n += 1;
+                        let (svc, _) = pair_tags(*pair);
+                        if !registered.contains(&svc) {
+                            saw_unregistered.insert(n);
+                        }
+                        let (pair, ms, nn) = (*pair, *ms, n);
+                        let mut fut: std::pin::Pin<Box<dyn std::future::Future<Output = Done>>> =
+                            Box::pin(async move { (pair, nn, nap_request(addr, pair, ms, nn).await) });
+                        // start sending; when exactly the request reaches the dispatcher is up to the transport
+                        match futures::poll!(fut.as_mut()) {
+                            std::task::Poll::Ready(d) => {
+                                check_done(&d, &saw_unregistered)?;
+                                finished.push(d);
+                            },
+                            std::task::Poll::Pending => {
+                                flying_to.push((nn, pair));
+                                flying.push(fut);
+                            },
+                        }
+                    },
+                    FlightStep::Advance(ms) => {
+                        let sleep = tokio::time::sleep(std::time::Duration::from_millis(*ms as u64));
+                        tokio::pin!(sleep);
+                        loop {
+                            tokio::select! {
+                                biased;
+                                Some(d) = flying.next(), if !flying.is_empty() => {
+                                    check_done(&d, &saw_unregistered)?;
+                                    flying_to.retain(|(k, _)| *k != d.1);
+                                    finished.push(d);
+                                },
+                                _ = &mut sleep => break,
+                            }
+                        }
+                        for s in removed_in_flight.clone() {
+                            if !flying_to.iter().any(|(_, p)| pair_tags(*p).0 == s) {
+                                removed_in_flight.remove(&s);
+                            }
+                        }
+                    },
+                    FlightStep::Probe => {
+                        for pair in 0..3u8 {
+                            n += 1;
+                            let (svc, msg) = pair_tags(pair);
+                            let out = nap_request(addr, pair, 0, n).await;
+                            let want = registered.contains(&svc);
+                            let inflight = flying_to.iter().filter(|(_, p)| pair_tags(*p).0 == svc).count();
+                            if removed_in_flight.contains(&svc) && inflight > 0 {
+                                probed_after_removal_in_flight = true;
+                            }
+                            match out {
+                                Ok(tag) => {
+                                    ensure!(want, "served-while-unregistered", "step {i}: probe of {svc}/{} served by {:?} although the service is not registered ({inflight} earlier requests to it still in flight; registered: {:?})", msg as char, tag, registered);
+                                    ensure!(tag == Tag(svc, msg, n), "served-by-wrong-handler", "step {i}: probe of {svc}/{} answered by {:?}", msg as char, tag);
+                                },
+                                Err(status) => {
+                                    ensure!(!want, "refused-while-registered", "step {i}: probe of {svc}/{} refused ({:?}) although the service is registered ({inflight} requests in flight; registered: {:?})", msg as char, status, registered);
+                                    ensure!(status.code == ErrorCode::ServiceUnavailable, "wrong-refusal-code", "step {i}: unregistered {svc} refused with {:?}", status);
+                                },
+                            }
+                        }
+                    },
+                }
+                check_starts()?;
+            }
+            // drain
+            while let Some(d) = flying.next().await {
+                check_done(&d, &saw_unregistered)?;
+                finished.push(d);
+            }
+            check_starts()?;
+            datacake_rpc::verif::unregister(addr);
+            server.shutdown();
+            let mut labels = vec![];
+            if probed_after_removal_in_flight {
+                labels.push("probe_after_removal_with_requests_in_flight");
+            }
+            if finished.iter().any(|d| d.2.is_ok()) {
+                labels.push("slow_request_completed");
+            }
+            Ok(Pass { nontrivial: probed_after_removal_in_flight, labels })
+        })
+    }
+
+    fn describe(&self, case: &FlightCase) -> Value {
+        json!(case.steps.iter().map(|s| format!("{s:?}")).collect::<Vec<_>>())
+    }
+
+    fn rule(&self) -> &'static str {
+        "two services whose handlers take 0-100 simulated ms (Slow1{X,Y}, Slow2{X}); 3-22 steps: add / remove a service, start a request \
+         (it reaches the server at once and stays in flight), advance time 1-100 ms, probe all three (service, message) pairs with \
+         instant requests; oracle: a probe is served by exactly its service iff that service is registered NOW, else ServiceUnavailable, \
+         whatever is still in flight; no handler ever STARTS while its service is unregistered (the handler looks it up when it starts); \
+         a slow request is answered by its own service, and may fail only if its service was unregistered at some moment of its life; non-trivial = a probe of a service that was removed while an \
+         earlier request to it is still being served"
+    }
+}
+
 pub fn parts_all() -> Vec<Box<dyn DynPart>> {
     let mut p = parts();
     p.push(Box::new(Gen::new(Wide, 20_000, 500_000)));
     p.push(Box::new(Gen::new(Concurrent, 1_600, 50_000)));
     p.push(Box::new(Gen::new(Sparse, 60_000, 3_000_000)));
+    p.push(Box::new(Gen::new(InFlight, 300_000, 10_000_000)));
     p
 }
